@@ -342,6 +342,26 @@ func c16Cases(thorough bool) []c16Case {
 			}
 		}
 	}
+	// D: the burst sizes of the three rate limiters at {default, 2, 1, 0} (connects: {default,
+	// 2}, because host and receiver connect back to back from one address): the first request of
+	// each kind must pass whatever the burst size
+	for _, cb := range []string{"", "2", "1", "0"} {
+		for _, mb := range []string{"", "2", "1", "0"} {
+			for _, wb := range []string{"", "2"} {
+				var args []string
+				if cb != "" {
+					args = append(args, "--session-creates-burst", cb)
+				}
+				if mb != "" {
+					args = append(args, "--ws-msgs-burst", mb)
+				}
+				if wb != "" {
+					args = append(args, "--ws-connects-burst", wb)
+				}
+				out = append(out, c16Case{Args: args, ClientMaxRx: 4, Turn: -1, HostID: "alice", RecvID: "bob"})
+			}
+		}
+	}
 	// C: half-configured TURN (servers without secret, secret without servers) = issuing off
 	out = append(out, c16Case{Args: []string{"--turn-server", "turn:relay.test:3478"}, ClientMaxRx: 4, Turn: -1, HostID: "alice", RecvID: "bob"})
 	out = append(out, c16Case{Args: []string{"--turn-static-auth-secret", "s"}, ClientMaxRx: 4, Turn: -1, HostID: "alice", RecvID: "bob"})
